@@ -6,6 +6,7 @@ import shutil
 import subprocess
 import sys
 import tempfile
+import time
 
 from common import GUARD, REPO, VERIF, CorrResult, Failure, parse_kv, run_check, use_repo
 use_repo()
@@ -48,7 +49,8 @@ NOTES = [
     "sys.stdout and the student namespace are process-global: a thread that swallows the termination keeps "
     "mutating sandbox.data, and if it also prints it writes into later executions' buffers "
     "(c14_surviving_printer_pollutes, recorded as an open finding); c14_next_run_unaffected excludes exactly that",
-    "the next execution E2 is an unthreaded run(); a threaded E2 is the same machine started again",
+    "the next execution E2 is modelled as an unthreaded run(); real runs also use a threaded E2 that ends by itself "
+    "(its own thread and claim) and must look exactly the same",
 ]
 
 EXITING = ["busy", "prints", "swallow_finish", "swallow_raise"]
@@ -80,9 +82,10 @@ def all_scenarios(limit):
 # real runs (one fresh process per scenario, several at a time)
 
 PROCESS_CAP = 30      # seconds; a scenario process normally takes 1-3 s
+PHASE_BUDGET = {"quick": 38, "thorough": 400}     # seconds for all real runs of a tier (hard limits: 60 s / 10 min)
 
 
-def run_one(sc, tmpdir, idx):
+def run_one(sc, tmpdir, idx, deadline=None):
     """One scenario in a fresh process.  The process not finishing in time says nothing about pedal (the machine
     may simply be busy): that is `inconclusive`, never a failure - a grader that really is stuck waiting for student
     code is recognised inside the process by sampling where the threads are (see timeout_scenario.py)."""
@@ -92,15 +95,21 @@ def run_one(sc, tmpdir, idx):
     env["PYTHONPATH"] = HERE + os.pathsep + REPO
     cmd = [sys.executable, "-X", "utf8", "-W", "ignore", os.path.join(HERE, "timeout_scenario.py"), json.dumps(sc), out]
     err = ""
+    t_start = time.time()
     for attempt in (0, 1):
+        cap = PROCESS_CAP if deadline is None else min(PROCESS_CAP, deadline - time.time())
+        if cap < 1:
+            return {"scenario": sc, "inconclusive": "not run: the tier's time budget for real runs was used up"}
         try:
-            p = subprocess.run(cmd, env=env, stdout=subprocess.DEVNULL, stderr=subprocess.PIPE, timeout=PROCESS_CAP)
+            p = subprocess.run(cmd, env=env, stdout=subprocess.DEVNULL, stderr=subprocess.PIPE, timeout=cap)
             err = p.stderr.decode("utf-8", "replace")[-1500:]
         except subprocess.TimeoutExpired:
-            return {"scenario": sc, "inconclusive": "scenario process did not finish within %d s" % PROCESS_CAP}
+            return {"scenario": sc, "inconclusive": "scenario process did not finish within %d s" % cap}
         if os.path.exists(out):
             with open(out) as fh:
-                return json.load(fh)
+                o = json.load(fh)
+            o["process_wall_s"] = round(time.time() - t_start, 2)
+            return o
     return {"scenario": sc, "crashed": True, "stderr": err}
 
 
@@ -115,17 +124,18 @@ def inconclusive(o):
     return None
 
 
-def run_real(scenarios):
+def run_real(scenarios, tier="quick"):
     tmpdir = tempfile.mkdtemp(prefix="c14_run_")
+    deadline = time.time() + PHASE_BUDGET[tier]
     try:
         with concurrent.futures.ThreadPoolExecutor(max_workers=6) as ex:
-            futs = [ex.submit(run_one, sc, tmpdir, i) for i, sc in enumerate(scenarios)]
+            futs = [ex.submit(run_one, sc, tmpdir, i, deadline) for i, sc in enumerate(scenarios)]
             obs = [f.result() for f in futs]
         # one more try, two at a time, for the runs a busy machine spoiled
         again = [i for i, o in enumerate(obs) if not o.get("crashed") and inconclusive(o)]
         if 0 < len(again) <= 4:     # (many spoiled runs = something systematic: trying again only costs time)
             with concurrent.futures.ThreadPoolExecutor(max_workers=2) as ex:
-                futs = [(i, ex.submit(run_one, scenarios[i], tmpdir, 1000 + i)) for i in again]
+                futs = [(i, ex.submit(run_one, scenarios[i], tmpdir, 1000 + i, deadline)) for i in again]
                 for i, f in futs:
                     o = f.result()
                     if not o.get("crashed"):
@@ -245,13 +255,19 @@ def model_view(ans):
 def scenario_list(rng, tier):
     scs = all_scenarios(0.25)
     if tier == "thorough":
-        scs += all_scenarios(0.2)
+        scs += [dict(sc, e2="threaded") for sc in all_scenarios(0.2)]
+        scs += all_scenarios(rng.choice([0.15, 0.3, 0.35]))
         for _ in range(3):          # natural schedules differ from run to run
             for p in EXITING + NEVER + ["swallowprint"]:
                 scs.append({"program": p, "position": "free", "limit": rng.choice([0.2, 0.25, 0.3])})
     else:
         for p in rng.sample(EXITING, 2):
             scs.append({"program": p, "position": "free", "limit": 0.2})
+        # the next execution threaded as well (a fresh thread, a fresh claim), at the placements that matter most
+        for p, pos in rng.sample([(p, pos) for p in EXITING for pos in ("after_return", "during_next", "after_next")], 3):
+            scs.append({"program": p, "position": pos, "limit": 0.2, "e2": "threaded"})
+        scs.append({"program": rng.choice(GATED), "position": rng.choice(["claim_first", "lose_race", "dies_at_claim"]),
+                    "limit": 0.2, "e2": "threaded"})
     return scs
 
 
@@ -272,7 +288,7 @@ def correspond(rng, tier, driver):
     cfg = {"claim": kv["claim"] == "1", "pops": kv["pops"] == "1", "bumps": kv["bumps"] == "1",
            "tolerant": kv["tolerant"] == "1"}
     scs = scenario_list(rng, tier)
-    obs = run_real(scs)
+    obs = run_real(scs, tier)
     res.observations = obs
     reqs, idx, crashed = [], [], []
     res.inconclusive = []
@@ -312,6 +328,8 @@ def correspond(rng, tier, driver):
         if diffs:
             res.disagreements.append({"case": sc, "real": real, "model": model, "fields": diffs, "request": req})
     res.samples = scs[:3]
+    walls = sorted(o.get("process_wall_s", 0) for o in obs)
+    res.distribution["scenario_process_wall_s"] = {"median": walls[len(walls) // 2], "max": walls[-1]} if walls else {}
     if res.inconclusive:
         res.distribution["inconclusive_runs"] = res.inconclusive[:10]
         print("C14: %d of %d scenario runs were inconclusive (busy machine: a cap expired or the student thread was "
@@ -387,7 +405,7 @@ def search(rng, tier, broken, corr):
             "evaluations": 0, "distinct_nontrivial": 0, "samples": []}
     obs = list(getattr(corr, "observations", []) or [])
     if not obs:
-        obs = run_real(scenario_list(rng, tier))
+        obs = run_real(scenario_list(rng, tier), tier)
     failures, seen = [], set()
     skipped = {}
     for o in obs:
